@@ -18,7 +18,7 @@ from __future__ import annotations
 import os
 
 from symx.obligation import Obligation
-from props.io_common import detach
+from props.io_common import detach, enum_str
 
 LEVEL = "exploration"
 
@@ -38,12 +38,12 @@ def _value_thunk(sym, name, kind):
         return lambda: int(sym.realize(v))
     if kind == "float":
         g = sym.grid(name + "|grid", -2**24, 2**24, 64)
-        if g < 0:
+        if name.endswith("other") and g < 0:        # both signs explored for the generic tag; the reading's sign is the solver's choice
             pass
         return lambda: float(sym.realize(g))
     if kind == "str":
-        s = sym.str(name + "|str", 1, ALPHABET)
-        return lambda: str(sym.realize(s))
+        s = enum_str(sym, name + "|str", 1, ALPHABET)
+        return lambda: s
     raise ValueError(kind)
 
 
@@ -149,42 +149,41 @@ def harness_mark_text(sym):
     if first is None:
         rest = None
     else:
-        rest = sym.str("mark_rest", max_len - 1, ALPHABET)
-    second = sym.str("mark2", 1, ALPHABET) if sym.bool("two_marks") else None
+        rest = enum_str(sym, "mark_rest", max_len - 1, ALPHABET)
+    second = enum_str(sym, "mark2", 1, ALPHABET) if sym.bool("two_marks") else None
     reading = _value_thunk(sym, "reading", "float")
     other = _value_thunk(sym, "other", "int")
 
     def plan():
-        m1 = "" if first is None else first + str(sym.realize(rest))
-        marks = [m1] if second is None else [m1, str(sym.realize(second))]
+        m1 = "" if first is None else first + rest
+        marks = [m1] if second is None else [m1, second]
         return {"names": ["Reading", "Other"], "unit": "L/h", "marks_before_start": [],
                 "rows": [{"reading": reading(), "other": other(), "simulate": False, "marks": marks}]}
     _finish(sym, plan)
 
 
 def harness_tag_sets(sym):
-    """Tag names / units / value kinds / row count chosen by the solver, Mark text from a catalogue."""
+    """Tag names / units / value kinds chosen by the solver, Mark text from a catalogue; two data rows."""
     sh = sym.shard
+    thorough = sh.get("tier") == "thorough"
     name0 = NAME_CATALOGUE[sh["name"]]
-    name1 = NAME_CATALOGUE[sym.index("name1", len(NAME_CATALOGUE))]
-    unit = UNIT_CATALOGUE[sym.index("unit", len(UNIT_CATALOGUE))]
-    nrows = 1 + sym.index("rows", 2)
+    step = [1, 3][sym.index("name1", 2)]
+    name1 = NAME_CATALOGUE[(sh["name"] + step) % len(NAME_CATALOGUE)]
+    units = UNIT_CATALOGUE if thorough else UNIT_CATALOGUE[:2]
+    marks = MARK_CATALOGUE if thorough else MARK_CATALOGUE[1:3]
+    unit = units[sym.index("unit", len(units))]
     pre = True if sym.bool("mark_before_start") else False
-    rows = []
-    for r in range(nrows):
-        kind = ["none", "int", "float", "str"][sym.index(f"r{r}|kind", 4)]
-        sim = (True if sym.bool(f"r{r}|sim") else False) if kind != "none" else False
-        m = sym.index(f"r{r}|mark", len(MARK_CATALOGUE) + 1)
-        rows.append((_value_thunk(sym, f"r{r}|reading", "float"), _value_thunk(sym, f"r{r}|other", kind), sim,
-                     [] if m == len(MARK_CATALOGUE) else [MARK_CATALOGUE[m]]))
+    kind = ["none", "int", "float", "str"][sym.index("r0|kind", 4)]
+    sim = (True if sym.bool("r0|sim") else False) if kind in ("int", "float") else False
+    m0 = sym.index("r0|mark", len(marks) + 1)
+    m1 = sym.index("r1|mark", 2)
+    r0 = (_value_thunk(sym, "r0|reading", "float"), _value_thunk(sym, "r0|other", kind))
+    r1 = (_value_thunk(sym, "r1|reading", "int"), _value_thunk(sym, "r1|other", "int"))
 
     def plan():
-        if name1 == name0:
-            n1 = name1 + "2"
-        else:
-            n1 = name1
-        return {"names": [name0, n1], "unit": unit, "marks_before_start": ["early,mark"] if pre else [],
-                "rows": [{"reading": a(), "other": b(), "simulate": s, "marks": m} for a, b, s, m in rows]}
+        return {"names": [name0, name1], "unit": unit, "marks_before_start": ["early,mark"] if pre else [],
+                "rows": [{"reading": r0[0](), "other": r0[1](), "simulate": sim, "marks": [] if m0 == len(marks) else [marks[m0]]},
+                         {"reading": r1[0](), "other": r1[1](), "simulate": False, "marks": [marks[0]] if m1 else []}]}
     _finish(sym, plan)
 
 
@@ -194,7 +193,7 @@ def _shards_mark(tier):
 
 
 def _shards_sets(tier):
-    return [{"name": i} for i in range(len(NAME_CATALOGUE))]
+    return [{"name": i, "tier": tier} for i in range(len(NAME_CATALOGUE))]
 
 
 _ENC = ["openpectus.engine.archiver:ArchiverTag.prepare_tags_file", "openpectus.engine.archiver:ArchiverTag.write_tags_row",
@@ -218,8 +217,21 @@ OBLIGATIONS = [
     Obligation(
         name="tag_sets", kind="crosshair", harness=harness_tag_sets, shards=_shards_sets, decides="concrete",
         cpu_budget={"quick": 80.0, "thorough": 800.0}, encoded=_ENC,
-        symbolic="tag names from a catalogue with delimiter / quote / escape / bracket characters, unit in {None, L/h, %, kg}, 1..2 data rows, per row the value kind of the "
-                 "second tag (None / int / float / 1-char string over the alphabet; plain or simulated) and a Mark from a catalogue or none, a Mark set before the run starts or not",
-        bounds={"quick": "3 ordinary tags (reading, Mark, generic) + the archiver tag itself; 1..2 rows", "thorough": "same"},
+        symbolic="tag names from a catalogue with delimiter / quote / escape / bracket characters, unit from a catalogue, two data rows: in the first the value kind of the "
+                 "generic tag (None / int / float / every <=1-char string over the alphabet; numeric values plain or simulated) and a Mark from a catalogue or none; "
+                 "in the second numeric values and a Mark or none; a Mark set before the run starts or not; numeric values solver-chosen",
+        bounds={"quick": "3 ordinary tags (reading, Mark, generic) + the archiver tag itself; 2 rows; units {None, L/h}; 2 catalogue Marks",
+                "thorough": "same with units {None, L/h, %, kg} and 4 catalogue Marks"},
         assumptions=_ASSUME),
 ]
+
+MANIFEST = {
+    "level": "exploration",
+    "text": "The real ArchiverTag (constructor, on_start, prepare_tags_file, write_tags_row) with real Tag/ReadingTag/MarkTag objects writes a real file into a scratch directory; the file is read back "
+            "with csv.reader configured from the archiver module's own delimiter/quoting/escapechar/encoding and compared with what each tag's own archive() returned: one header, one record per "
+            "written row, every row as wide as the header, every cell unchanged. The solver enumerates every Mark text over {, ; \\ \" newline space a} up to length 3 (quick) / 4 (thorough), "
+            "an optional second Mark, tag names and units from catalogues with delimiter/quote/escape characters, value kinds (None/int/float/str, plain or simulated) and chooses the numbers.",
+    "note": "Exploration with an exhaustive finite domain: the writer is CPython's C _csv, so each input is decided by a concrete run after the path is detached and the solver's values are concretised. "
+            "Float cells are compared with the archive's own 5-decimal text. A Mark set before run start is consumed by the header computation (MarkTag.archive resets the tag) - not part of this property, not checked.",
+    "technique": "solver-enumerated inputs (CrossHair + z3 selectors), concrete execution of the real writer and read-back, counterexample replay",
+}
